@@ -16,6 +16,7 @@ mod stacks;
 mod tables;
 mod util;
 mod values;
+mod vmtrace;
 
 use std::env;
 
@@ -26,6 +27,8 @@ fn main() {
         std::process::exit(2);
     }
     let rest = &args[1..];
+    // panics of the code under test are data; keep stderr quiet
+    std::panic::set_hook(Box::new(|_| {}));
     match args[0].as_str() {
         "stacks-replay" => util::run_cases(rest, stacks::replay_case),
         "stacks-drive" => stacks::drive(rest),
@@ -38,6 +41,7 @@ fn main() {
         "cards-run" => util::run_cases(rest, drive::run_case),
         "host-register-names" => drive::register_names(rest),
         "nameres-run" => util::run_cases(rest, nameres::run_case),
+        "budget-drive" => vmtrace::budget_drive(rest),
         "cards-show" => drive::show(rest),
         "table-replay" => util::run_cases(rest, tables::replay_case),
         "table-drive" => tables::drive(rest),
